@@ -86,6 +86,11 @@ PROPS = {
         ] + [
             {"engine": "E2", "module": "lib", "harness": "h_ifdata_empty_sequence", "functions": ["ifdata::parse_ifdata_item", "ifdata::parse_ifdata_taggedstruct"],
              "bound": "3 A2ML definitions whose sequence element can match zero tokens + one IF_DATA block: loading terminates", "timeout": 300, "extra_modules": ["tokenizer"], "max_steps": 600000},
+        ] + [
+            {"engine": "E2", "module": "lib", "harness": "h_ifdata_soup_%d" % n, "functions": ["load_from_string", "ifdata::parse_ifdata", "ifdata::parse_unknown_ifdata_start", "ifdata::parse_unknown_ifdata", "ifdata::parse_unknown_taggedstruct", "parser::get_string", "tokenizer::handle_a2ml"],
+             "bound": "uninterpreted IF_DATA holding every %d-lexeme soup over {/begin B, /end B, ident, hex number, string, empty string, block comment, line comment, embedded A2ML section (raw text '\"' / 'x y')}, closed or cut off, strict and non-strict: loading returns, accepted text loads again" % n,
+             "timeout": 300, "extra_modules": ["tokenizer"], "max_steps": 3000000, "quick": n <= 2}
+            for n in (1, 2, 3)
         ],
     },
     "C13": {
@@ -348,6 +353,31 @@ PROPS = {
             {"engine": "E2", "module": "parser", "harness": h, "functions": ["parser::ParserState::handle_unknown_taggedstruct_tag", "parser::ParserState::error_or_log"],
              "bound": "unknown tag + every 1..3-lexeme soup, strictness symbolic: strict never accepts", "timeout": 300, "extra_modules": ["tokenizer"]}
             for h in ("h_unknown_soup_1", "h_unknown_soup_2", "h_unknown_soup_3")
+        ],
+    },
+    "C19": {
+        "files": ["a2lmacros/src/a2mlspec.rs", "a2lmacros/src/codegenerator/data_structure.rs", "a2lmacros/src/codegenerator/ifdata_parser.rs", "a2lmacros/src/codegenerator/ifdata_writer.rs", "a2lmacros/src/util.rs", "a2lfile/src/a2ml.rs", "a2lfile/src/ifdata.rs"],
+        "trusted": T_STD + ["rustfmt (pretty-prints the generated token stream so that every generated impl has its own span)", "proc_macro2 fallback implementation (the generator runs as a test of the scratch copy of a2lmacros, outside the compiler)"],
+        "intree_macros": True,
+        "assumptions": ["two fixed invocations of the in-tree generator a2lmacros::a2mlspec::a2ml_specification (the function behind the proc macro), re-run on the current tree on every check: VSpec (IF_DATA = taggedunion with every scalar type, char array, numeric array, enum reference, struct reference, block taggedstruct with optional/repeated members and blocks, block sequences of strings and of structs, tag without data) and WSpec (IF_DATA = struct with doc comments, anonymous enum, enum/taggedunion/taggedstruct references, repeated struct member)",
+                        "sequences of integers '(uint x)*' are not in the invocations: the generator emits code that does not compile for them (observed, a compile-time defect outside this property's behavioural statement)",
+                        "typed values: symbolic content of every scalar member for store->load; for the trips through text integer extremes by choice with at most two symbolic 8-bit fields and symbolic string characters (printable ASCII without quote and backslash)",
+                        "shape mismatch family: 12 in-file definitions (shorter/longer arrays, other scalar types, missing members, other enum, struct instead of taggedstruct, other sequence element)"],
+        "jobs": [
+            {"engine": "E2", "module": "ifdata", "harness": "h_c19_store_load", "functions": ["<generated> VSpec::store_to_ifdata", "<generated> VSpec::load_from_ifdata", "<generated> *::store", "<generated> *::parse", "a2ml::GenericIfData::get_*"],
+             "bound": "every member kind of VSpec, all values of every scalar member (symbolic), strings of 2 symbolic chars, 0..=2 repeated items", "timeout": 300, "must_cover": ["c19_store_load_end"]},
+            {"engine": "E2", "module": "ifdata", "harness": "h_c19_spec2_store_load", "functions": ["<generated> WSpec::store_to_ifdata", "<generated> WSpec::load_from_ifdata"],
+             "bound": "WSpec: 2x3 enum values x 3 union states x 0..=2 repeated items x optional members, symbolic 8-bit scalars", "timeout": 300, "must_cover": ["c19_spec2_store_load_end"]},
+            {"engine": "E2", "module": "ifdata", "harness": "h_c19_text_roundtrip", "functions": ["<generated> VSpec::store_to_ifdata", "<generated> VSpec::update_a2ml", "<generated> VSPEC_TEXT", "A2lFile::write_to_string", "load_from_string", "a2ml::parse_a2ml", "ifdata::parse_ifdata_item", "<generated> VSpec::load_from_ifdata"],
+             "bound": "every member kind of VSpec, integer extremes by choice + symbolic 8-bit fields, 3 float pairs, symbolic string chars; strict reload", "timeout": 400, "must_cover": ["c19_text_roundtrip_end"], "max_steps": 4000000},
+            {"engine": "E2", "module": "ifdata", "harness": "h_c19_spec2_text_roundtrip", "functions": ["<generated> WSpec::store_to_ifdata", "<generated> WSPEC_TEXT", "A2lFile::write_to_string", "load_from_string", "<generated> WSpec::load_from_ifdata"],
+             "bound": "4 presets of WSpec with symbolic 8-bit scalars / string char; strict reload; load, store, write reproduces the text", "timeout": 400, "must_cover": ["c19_spec2_text_roundtrip_end"], "max_steps": 4000000},
+            {"engine": "E2", "module": "ifdata", "harness": "h_c19_parsed_roundtrip", "functions": ["load_from_string", "<generated> VSpec::load_from_ifdata", "<generated> VSpec::store_to_ifdata", "A2lFile::write_to_string"],
+             "bound": "14 instance texts (decimal/hex notation, every member kind, empty and populated blocks, members out of definition order)", "timeout": 300, "must_cover": ["c19_parsed_roundtrip_end"], "max_steps": 4000000},
+            {"engine": "E2", "module": "ifdata", "harness": "h_c19_shape_mismatch", "functions": ["load_from_string", "<generated> VSpec::load_from_ifdata", "<generated> *::parse"],
+             "bound": "12 mismatching in-file definitions with a conforming instance each: load_from_ifdata returns None, no panic", "timeout": 300, "must_cover": ["c19_shape_mismatch_end"], "max_steps": 4000000},
+            {"engine": "E2", "module": "ifdata", "harness": "h_c19_text_constant_parses", "functions": ["a2ml::parse_a2ml", "<generated> VSPEC_TEXT"],
+             "bound": "the generated text constant of VSpec", "timeout": 200, "must_cover": ["c19_text_constant_end"]},
         ],
     },
     "C18": {
